@@ -131,8 +131,8 @@ pub fn gen_raw(t: &mut Tape, o: &RawOpts) -> raw::Library {
             keys.push(layers.add(l));
         }
     }
-    // mostly a handful of cells; one library in 40 has 64-130 of them (thresholds at which an exporter may change strategy)
-    let ncells = if t.chance(1, 40) { *t.pick(&[63u64, 64, 65, 100, 128, 130]) } else { t.range(1, 5) };
+    // mostly a handful of cells; one library in 40 has 63-300 of them (thresholds at which an exporter may change strategy)
+    let ncells = if t.chance(1, 40) { *t.pick(&[63u64, 64, 65, 100, 128, 130, 199, 200, 201, 256, 300]) } else { t.range(1, 5) };
     let mut cells: Vec<Ptr<raw::Cell>> = Vec::new();
     let mut list: PtrList<raw::Cell> = PtrList::new();
     for ci in 0..ncells {
@@ -206,6 +206,12 @@ pub fn gen_lef_import_case(t: &mut Tape) -> (lef21::LefLibrary, Option<Vec<(i16,
                 v.push((num, name));
             }
         }
+        // names that differ from others (and from the LEF's spelling) only in case
+        for (num, name) in [(168i16, "MET1"), (268, "Met1"), (170, "MET3"), (167, "LI1")] {
+            if t.chance(1, 4) {
+                v.push((num, name));
+            }
+        }
         Some(v)
     } else {
         None
@@ -223,6 +229,13 @@ pub fn gen_lef_for_import(t: &mut Tape) -> lef21::LefLibrary {
             .map(|_| {
                 // mostly distinct layers, sometimes a repeat (merged by the importer)
                 let name = if t.chance(1, 6) { layer_names[t.draw(7) as usize].to_string() } else { names.remove(t.draw(names.len() as u64) as usize).to_string() };
+                // sometimes spelled with other letter case than anywhere else
+                let name = match t.draw(12) {
+                    0 => name.to_uppercase(),
+                    1 => format!("{}{}", name[..1].to_uppercase(), &name[1..]),
+                    2 => format!("{}{}", &name[..1], name[1..].to_uppercase()),
+                    _ => name,
+                };
                 let geometries = (0..t.range(1, 3))
                     .map(|_| {
                         LefGeometry::Shape(match t.draw(3) {
